@@ -1,6 +1,7 @@
 (* C01 - Incremental builds produce exactly what a clean build produces.
-   Statement, refutation (directory outputs: the path hash of a directory ignores entry names, and
-   moveOutput keeps the old output when the hashes are equal), and the partial theorems. *)
+   Statement, two refutations (directory outputs: the path hash of a directory ignores entry names, and
+   moveOutput keeps the old output when the hashes are equal; output_dirs: a target rebuilt after the post-build
+   check keeps the outputs of an old metadata file and fails), and the partial theorems. *)
 (* Proof.Engine_Gen: the record layout / needsBuilding order / cache-key parts regenerated from the source *)
 From PlzV Require Import Proof.Engine_Gen.
 From PlzV Require Import Base.Harness Model.Engine Model.C01 Proof.Engine Proof.C03 Proof.C01.
@@ -15,7 +16,7 @@ Definition C01_statement : Prop :=
     let clean := plz_build false r req empty_store in
     run_ok incr = run_ok clean
     /\ forall t, In t (r_targets (restrict r req)) -> ~ In (t_label t) (rn_failed clean) ->
-       outs_of (rn_st incr) t = outs_of (rn_st clean) t.
+       outs_of (rn_st incr) t = outs_of (rn_st clean) t /\ all_outs_of (rn_st incr) t = all_outs_of (rn_st clean) t.
 
 (* Witness: d copies its sources into the directory d_dir; build with srcs = [a.txt] ("x"), rename the
    file to b.txt, build again: plz-out keeps {a.txt}, a clean build has {b.txt}. *)
@@ -29,43 +30,60 @@ Proof.
   specialize (Ho (wit_target [s "b.txt"] (s "k2"))).
   assert (Hin : In (wit_target [s "b.txt"] (s "k2")) (r_targets (restrict wit_r2 [s "//p:d"]))) by (vm_compute; left; reflexivity).
   assert (Hnf : ~ In (t_label (wit_target [s "b.txt"] (s "k2"))) (rn_failed (plz_build false wit_r2 [s "//p:d"] empty_store))) by (vm_compute; tauto).
-  specialize (Ho Hin Hnf). vm_compute in Ho. discriminate Ho.
+  destruct (Ho Hin Hnf) as [Ho1 _]. vm_compute in Ho1. discriminate Ho1.
 Qed.
 Print Assumptions C01_refuted.
 
-(* Partial 1 (executable classifier): histories in which no action outputs a directory (earlier builds of
-   the history may even have used the cache). *)
+(* Second, independent witness (no directory output): t has output_dirs; its declared out is renamed m1 -> m2 (and a
+   source added), built, and renamed back.  The third build fails ("failed to create output"), the clean build of
+   the same tree succeeds: the exit classes differ. *)
+Theorem C01_refuted_output_dirs : ~ C01_statement.
+Proof.
+  intros H. specialize (H [HBuild false od_rA [s "//p:t"]; HBuild false od_rB [s "//p:t"]] od_rA [s "//p:t"]).
+  assert (Hwf : wf_history ([HBuild false od_rA [s "//p:t"]; HBuild false od_rB [s "//p:t"]] ++ [HBuild false od_rA [s "//p:t"]])).
+  { split; [vm_compute; reflexivity|].
+    intros t t' [<-|[<-|[<-|[]]]] [<-|[<-|[<-|[]]]] E; try reflexivity; vm_compute in E; discriminate E. }
+  destruct (H Hwf eq_refl) as [Hok _]. vm_compute in Hok. discriminate Hok.
+Qed.
+Print Assumptions C01_refuted_output_dirs.
+
+(* Partial 1 (executable classifiers): histories in which no action outputs a directory (defect_class) and no
+   build rebuilt a target with output_dirs after the post-build check (quiet_history: Engine.stale_flow evaluated
+   along the history; trivially true without such targets - earlier builds of the history may even have used the
+   cache).  The conclusion covers the discovered outputs of output_dirs targets (all_outs_of). *)
 Theorem C01_partial :
   forall (h : list hstep) (r : repo) (req : list str),
     wf_history (h ++ [HBuild false r req]) ->
     (forall t, In t (history_targets (h ++ [HBuild false r req])) -> defect_class t = None) ->
+    quiet_history (h ++ [HBuild false r req]) empty_store = true ->
     let incr := plz_build false r req (run_history h empty_store) in
     let clean := plz_build false r req empty_store in
     run_ok incr = run_ok clean
     /\ rn_failed incr = rn_failed clean
     /\ forall t, In t (r_targets (restrict r req)) -> ~ In (t_label t) (rn_failed clean) ->
-       outs_of (rn_st incr) t = outs_of (rn_st clean) t.
+       outs_of (rn_st incr) t = outs_of (rn_st clean) t /\ all_outs_of (rn_st incr) t = all_outs_of (rn_st clean) t.
 Proof. exact (incremental_is_clean_files false). Qed.
 Print Assumptions C01_partial.
 
 (* Partial 2 (path_inj as an explicit hypothesis): for ANY class `good` of trees that contains the source
-   files, is closed under the actions of the history and on which the path-hash stream is injective, and any
-   set U of targets on which the rule key is injective: incremental = clean.  This is the theorem that a
-   repaired directory hash (C09) would turn into C01_full. *)
+   files, is closed under the builds of the history (Engine.result) and on which the path-hash stream is injective,
+   and any set U of targets on which the rule key is injective: incremental = clean.  This is the theorem that a
+   repaired directory hash (C09) would turn into C01_full (up to the output_dirs side condition). *)
 Theorem C01_partial_path_inj :
   forall (U : target -> Prop) (good : node -> Prop),
     (forall t t', U t -> U t' -> t_defkey t = t_defkey t' -> t = t') ->
     (forall a b, good a -> good b -> stream a = stream b -> a = b) ->
     (forall c, good (File false c)) ->
-    (forall t ins news, U t -> Forall good (map snd ins) -> act (t_kind t) (outputs t) ins = Some news -> Forall good (map snd news)) ->
+    (forall t ins news, U t -> Forall good (map snd ins) -> result t ins = Some news -> Forall good (map snd news)) ->
     forall h r req,
       forallb step_wf (h ++ [HBuild false r req]) = true ->
       (forall t, In t (history_targets (h ++ [HBuild false r req])) -> U t) ->
+      quiet_history (h ++ [HBuild false r req]) empty_store = true ->
       let incr := plz_build false r req (run_history h empty_store) in
       let clean := plz_build false r req empty_store in
       rn_failed incr = rn_failed clean
       /\ forall t, In t (r_targets (restrict r req)) -> ~ In (t_label t) (rn_failed clean) ->
-         outs_of (rn_st incr) t = outs_of (rn_st clean) t.
+         outs_of (rn_st incr) t = outs_of (rn_st clean) t /\ all_outs_of (rn_st incr) t = all_outs_of (rn_st clean) t.
 Proof. intros U good H1 H2 H3 H4. exact (incremental_is_clean U good H1 H2 H3 H4 false). Qed.
 Print Assumptions C01_partial_path_inj.
 
@@ -79,9 +97,34 @@ Definition nv_r2 : repo := mkR [(s "p/a.txt", s "1"); (s "p/b.txt", s "3")] [nv_
 Example C01_nonvacuous :
   wf_history ([HBuild false nv_r1 [s "//p:b"]] ++ [HBuild false nv_r2 [s "//p:b"]])
   /\ (forall t, In t (history_targets ([HBuild false nv_r1 [s "//p:b"]] ++ [HBuild false nv_r2 [s "//p:b"]])) -> defect_class t = None)
+  /\ quiet_history ([HBuild false nv_r1 [s "//p:b"]] ++ [HBuild false nv_r2 [s "//p:b"]]) empty_store = true
   /\ rn_log (plz_build false nv_r2 [s "//p:b"] (run_history [HBuild false nv_r1 [s "//p:b"]] empty_store)) = [s "//p:b"]
   /\ rn_log (plz_build false nv_r2 [s "//p:b"] empty_store) = [s "//p:b"; s "//p:a"]
   /\ outs_of (rn_st (plz_build false nv_r2 [s "//p:b"] empty_store)) nv_b = [(s "b.out", Some (File false (s "13")))].
+Proof.
+  split; [split; [vm_compute; reflexivity|]|].
+  - intros t t' Ht Ht' E. cbn in Ht, Ht'.
+    destruct Ht as [<-|[<-|[<-|[<-|[]]]]], Ht' as [<-|[<-|[<-|[<-|[]]]]]; try reflexivity; vm_compute in E; discriminate E.
+  - split; [|vm_compute; repeat split].
+    intros t Ht. cbn in Ht. destruct Ht as [<-|[<-|[<-|[<-|[]]]]]; reflexivity.
+Qed.
+
+(* Non-vacuity with output_dirs: t copies its sources into _o.  Tree 1: srcs [a.txt]; tree 2: srcs [a.txt, b.txt]
+   (the declared out stays m1); tree 3 = tree 2 with b.txt edited; last build: tree 3 unchanged.  All hypotheses of
+   C01_partial hold (no build goes through stale_flow), the third build re-runs the command and discovers a.txt and
+   b.txt, the last build skips the target after BOTH checks, and its outputs are those of a clean build. *)
+Definition nvo_t (srcs : list str) (key : str) : target := mkT (s "//p:t") (s "p") (Genrule OutDir) (map SFile srcs) [s "m1"] key.
+Definition nvo_r1 : repo := mkR [(s "p/a.txt", s "A"); (s "p/b.txt", s "B")] [nvo_t [s "a.txt"] (s "k1")].
+Definition nvo_r2 : repo := mkR [(s "p/a.txt", s "A"); (s "p/b.txt", s "B")] [nvo_t [s "a.txt"; s "b.txt"] (s "k2")].
+Definition nvo_r3 : repo := mkR [(s "p/a.txt", s "A"); (s "p/b.txt", s "B2")] [nvo_t [s "a.txt"; s "b.txt"] (s "k2")].
+Definition nvo_h : list hstep := [HBuild false nvo_r1 [s "//p:t"]; HBuild false nvo_r2 [s "//p:t"]; HBuild false nvo_r3 [s "//p:t"]].
+Example C01_nonvacuous_output_dirs :
+  wf_history (nvo_h ++ [HBuild false nvo_r3 [s "//p:t"]])
+  /\ (forall t, In t (history_targets (nvo_h ++ [HBuild false nvo_r3 [s "//p:t"]])) -> defect_class t = None)
+  /\ quiet_history (nvo_h ++ [HBuild false nvo_r3 [s "//p:t"]]) empty_store = true
+  /\ rn_log (plz_build false nvo_r3 [s "//p:t"] (run_history nvo_h empty_store)) = []
+  /\ all_outs_of (rn_st (plz_build false nvo_r3 [s "//p:t"] (run_history nvo_h empty_store))) (nvo_t [s "a.txt"; s "b.txt"] (s "k2"))
+     = [(s "a.txt", Some (File false (s "A"))); (s "b.txt", Some (File false (s "B2"))); (s "m1", Some (File false fixed))].
 Proof.
   split; [split; [vm_compute; reflexivity|]|].
   - intros t t' Ht Ht' E. cbn in Ht, Ht'.
